@@ -48,7 +48,8 @@ RULE = (
     "non-contiguous views, the same array passed twice) x replica k (sizes and numbers drawn from the case RNG; the DISCRETE options and special values of "
     "each API - angular method, presets incl. shell-count ones, rotate, store, weight schemes, negative axes, use_log/nu_*, which=, wrap, trim_inf and the "
     "transform end points, moment types, chunk sizes, elements without a Bragg radius, custom radii, orders - rotate deterministically with (replica, pattern) "
-    "so that every option is entered in every run). Family ode-data: initial values / boundary data / interval / mesh as list, tuple, float64, int, float32 "
+    "so that every option is entered in every run; arrays whose order the API leaves free are handed over ascending / descending / shuffled / with "
+    "repeated values; every sequence ends with all public property setters of the object, found by introspection, and further calls). Family ode-data: initial values / boundary data / interval / mesh as list, tuple, float64, int, float32 "
     "array and strided view x orders 1-3 x every transform setting x read-only, compared bitwise after the call. Non-fresh patterns first run the fresh "
     "baseline and compare results; every scenario finally compares every array/list/dict it created with a pristine copy (covers arrays handed to a "
     "constructor and modified by a later method). thorough adds more replicas and the repository's own tests run under the monitor in shards "
